@@ -22,6 +22,7 @@ props = args or sorted(PK)
 
 def one(p):
     ns = sorted(int(os.path.basename(d).split('-')[1]) for d in glob.glob(f'/verif/seeded/{p}-*'))
+    ns = [n for n in ns if n >= int(os.environ.get('REEVAL_MIN', '1'))]
     dd, pkgs = PK[p]
     out = subprocess.run([sys.executable, '/verif/tools/reeval.py', p, dd] + [str(n) for n in ns] + ['--'] + pkgs.split(),
                          stdout=subprocess.PIPE, stderr=subprocess.STDOUT, text=True).stdout
